@@ -58,8 +58,12 @@ func c06Body(t *rapid.T) {
 	st := stats.New("C06")
 	sameTarget := rapid.Bool().Draw(t, "sameTarget")
 	packerMax := rapid.SampledFrom([]int{1, 1, 2, 3}).Draw(t, "packerMax")
-	class := rapid.SampledFrom([]string{"write_rejected", "write_rejected", "checkpoint_rejected", "unknown_partition", "ddl_rejected"}).Draw(t, "class")
+	class := rapid.SampledFrom([]string{"write_rejected", "write_rejected", "checkpoint_rejected", "unknown_partition", "ddl_rejected", "ddl_rejected"}).Draw(t, "class")
 	persistent := rapid.Bool().Draw(t, "persistent")
+	if class == "ddl_rejected" && !persistent {
+		// a single rejected DDL is usually absorbed by the writer's retry; the persistent form is the one that pauses the task
+		persistent = rapid.Bool().Draw(t, "persistentDDL")
+	}
 	if v := os.Getenv("VERIF_C06_CLASS"); v != "" { // debugging aid
 		class = v
 	}
